@@ -1421,6 +1421,15 @@ class Interp:
             raise Unsupported("integer operator on symbolic float")
         if isinstance(a, Num) and isinstance(b, SInt) or isinstance(a, SInt) and isinstance(b, Num):
             raise Unsupported("mixed float / machine int arithmetic")
+        if isinstance(a, SInt) and isinstance(b, float) or isinstance(a, float) and isinstance(b, SInt):
+            # numba computes this in float64. A constant machine integer is converted exactly as numba does (int64 -> float64,
+            # round to nearest); float64 rounding of *symbolic* machine integers is not modelled
+            sa, sb = (a, b) if isinstance(a, SInt) else (b, a)
+            cv = z3.simplify(sa.t)
+            if z3.is_bv_value(cv):
+                fv = float(cv.as_signed_long())
+                return BINOPS[op](fv, b) if sa is a else BINOPS[op](a, fv)
+            raise Unsupported("machine integer combined with a float64 value (float64 rounding of integers beyond 2^53 is not modelled)")
         if op is ast.Div and isinstance(b, (int, float)) and not isinstance(a, (Num, SInt)) and b == 0:
             # numba float semantics: x/0 -> inf/nan (python would raise)
             a = float(a)
